@@ -42,7 +42,7 @@ def generate(streams, tier):
         virt_rate = rw.choice([0.0, 0.3, 0.6])
         for _ in range(rw.randint(3, 12 if not big else 20)):
             if rf.random() < fault_rate:
-                kind = rf.choice(["unknown_state", "overlap", "bad_virt_card", "unknown_var"])
+                kind = rf.choice(["unknown_state", "overlap", "bad_virt_card", "unknown_var", "bad_virt_states", "bad_virt_states"])
                 q = c01.gen_query(rw, world, ref, allow_virtual=False)
                 ops.append({"op": "bad", "kind": kind, "q": q["q"], "ev": q["ev"], "api": rf.choice(["query", "map"])})
                 continue
@@ -349,6 +349,14 @@ def _bad_question(ctx, engine, names, world, op):
 
         v = q[0]
         kw["virtual_evidence"] = [TabularCPD(names.L(v), world["card"][v] + 1, [[0.5]] * (world["card"][v] + 1))]
+    elif kind == "bad_virt_states":
+        # virtual evidence whose state names are not the variable's: refused while the engine is being rebound to the augmented copy
+        from pgmpy.factors.discrete import TabularCPD
+
+        rest = [v for v in range(world["n"]) if v not in q and v not in ev] or q
+        v = rest[0]
+        c_ = world["card"][v]
+        kw["virtual_evidence"] = [TabularCPD(names.L(v), c_, [[1.0 / c_]] * c_, state_names={names.L(v): ["__other_%d" % j for j in range(c_)]})]
     ctx.event("bad", kind, op["api"])
     ctx.fault("engine_reject_probe")
     try:
